@@ -191,7 +191,7 @@ def run_align(case):
 
     d = scratch()
     db = os.path.join(d, "c13.yml")
-    gen_db.write(case["db"], db)
+    meta_ = gen_db.write(case["db"], db)
     out = {}
     labels = ["alignment"]
     names = None
@@ -208,7 +208,14 @@ def run_align(case):
         rl = case["rl"]
         step = max(1, rl // case["depth"])
         bam, pbam = os.path.join(d, f"s{build}.bam"), os.path.join(d, f"p{build}.bam")
-        sim.sample(bam, [(c, m) for c, m, _, _ in copies], rl, step)
+        # reads from the database's RefSeq-level truth converted by the harness (lib/truth.py), not from the loaded variants
+        from lib import truth
+
+        simc = []
+        for c, m, maj, nm in copies:
+            tv = truth.allele_variants(case["db"], meta_, build, nm) if maj is not None else None
+            simc.append((c, frozenset(tv) if tv is not None else m))
+        sim.sample(bam, simc, rl, step)
         sim.sample(pbam, [("1", frozenset())] * 2, rl, step)
         labels.append(f"strand:{gene.strand:+d}")
         try:
